@@ -74,6 +74,7 @@ namespace
         std::map<std::string, uint64_t> max_blocks; // per "fn/type/arch-width": basic blocks of one call
         uint64_t last_blocks = 0;
         bool last_block_exceeded = false;
+        bool last_stack_exceeded = false;
         uint64_t max_ops = 64;
         uint64_t watchdog_ms = 400;
         std::vector<uint64_t> nearpi_f32, nearpi_f64; // hard cases of trigonometric argument reduction (nearpi.hpp)
@@ -479,12 +480,15 @@ namespace
                 _mm_setcsr(csr);
                 ++f_env;
             }
+            char here;
+            c.sp0 = &here;
             c.armed = true;
             if (setjmp(c.jb) == 0)
                 fe.call(in_a, in_b, outb);
             else
                 exceeded = true;
             c.armed = false;
+            last_stack_exceeded = c.stack_exceeded;
             _mm_setcsr(csr_default & ~0x3fu); // back to the default environment, sticky exception flags cleared
             ticks = c.ticks;
             last_blocks = c.blocks;
@@ -564,7 +568,11 @@ namespace
                     ++p_special;
                 if (op.family == 7)
                     ++p_huge;
-                if (exceeded && block_exceeded)
+                if (exceeded && last_stack_exceeded)
+                    out.violate(sim::fmt("C14/stack-budget-exceeded(%s,%s)", fe.name, fe.tname),
+                                sim::fmt("%s<%s,%s>: the call went more than %llu bytes deep into the stack (runaway recursion; lane 0 bits 0x%llx)", fe.name, fe.tname, fe.arch,
+                                         (unsigned long long)tick_clock().stack_budget, (unsigned long long)op.a[0]));
+                else if (exceeded && block_exceeded)
                 {
                     ++cl_blocks;
                     out.violate(sim::fmt("C14/block-budget-exceeded(%s,%s)", fe.name, fe.tname),
